@@ -271,3 +271,14 @@ def _inside(node) -> bool:
     if node.kind == "with_exc_exit":
         return all(_inside(p.src) for p in node.pred if p.kind == "exc")
     return False
+
+
+_core_run = run
+
+
+def run(ctx: Context) -> None:  # noqa: F811
+    _core_run(ctx)
+    from . import support
+
+    ctx.rep.rule('C04.R7', 'lazy establishment is a test-and-set under the establishment lock (the `is None` / `not connected` test is evaluated inside the lock region that installs the connection)')
+    support.establish_test_and_set(ctx, 'C04.R7')
